@@ -27,7 +27,9 @@ from fractions import Fraction
 
 from harness import shim
 
-shim.install()
+# none of the window code opens files relative to the working directory: do not chdir (keeps a
+# relative --replay path of the CLI valid)
+shim.install(chdir=False)
 
 import numpy as np  # noqa: E402
 import pandas as pd  # noqa: E402
@@ -260,7 +262,7 @@ def manager_report(case, style="str"):
         path = Path(tmp) / "out" / mgr.generate_file_names(Output_Files.EST_EMISSIONS_FILE)
         if not path.exists():
             return {}
-        csv = pd.read_csv(path)
+        csv = pd.read_csv(path, float_precision="round_trip")
         out = {}
         for _, row in csv.iterrows():
             key = (_site_back(row[eca.SITE_ID]),
